@@ -233,6 +233,12 @@ func ruleOU10(c *Ctx) {
 		}
 	}
 	fns = append(fns, c.unitOf(lg)...)
+	for _, f := range c.Fns {
+		if f != lg && c.loaderKind(f) != "" {
+			fns = append(fns, f) // the loader split into parts (loadGraphFrom)
+			fns = append(fns, c.unitOf(f)...)
+		}
+	}
 	n := 0
 	seen := map[ssa.Instruction]bool{}
 	for _, f := range fns {
@@ -297,8 +303,17 @@ func ruleDT8(c *Ctx) {
 	}
 	rd, re := c.F.Anchors["readEvents"], c.F.Anchors["replayEvents"]
 	n := 0
-	for _, g := range append([]*ssa.Function{lg}, c.unitOf(lg)...) {
-		if g == rd || g == re || c.opaqueHelper(g) && g != lg {
+	family := append([]*ssa.Function{lg}, c.unitOf(lg)...)
+	inFamily := map[*ssa.Function]bool{lg: true}
+	for _, f := range c.Fns {
+		if f != lg && c.loaderKind(f) != "" {
+			family = append(family, f)
+			family = append(family, c.unitOf(f)...)
+			inFamily[f] = true
+		}
+	}
+	for _, g := range family {
+		if g == rd || g == re || c.opaqueHelper(g) && !inFamily[g] {
 			continue
 		}
 		for _, r := range returnsOf(g) {
@@ -318,7 +333,7 @@ func ruleDT8(c *Ctx) {
 					continue
 				}
 				cal := calleeOf(&cl.Call)
-				if cal == rd || cal == re || (cal != nil && c.inUnit(cal, lg)) {
+				if cal == rd || cal == re || (cal != nil && (c.inUnit(cal, lg) || inFamily[cal])) {
 					continue
 				}
 				bad = calleeFullName(&cl.Call)
